@@ -9,7 +9,7 @@
    checks that for `run`; the three commands do not -- on a table that is not closed they die from a
    KeyError, outcome CKeyError, DB untouched).  [md5] is an oracle (any function). *)
 From DoitV Require Import Base Status History StatusP HistoryP Commands CommandsP.
-From DoitV Require Dispatch Runner Parallel RunnerP ParallelP.
+From DoitV Require Dispatch Runner Parallel RunnerP ParallelP IgnParP.
 From Coq Require Import Relations.
 Open Scope Z_scope.
 
@@ -331,22 +331,49 @@ Proof.
 Qed.
 Print Assumptions C13_ignore_then_wins_over_always.
 
-(* PARTIAL (parallel runners).  Proved, for MRunner / MThreadRunner under any worker count and
-   schedule, any options: every final report of a task the mark reaches is skip_ignore, and no task with
-   a task_dep / calc_dep / setup on such a task is ever started in a worker.
-   Missing: "no worker starts a task that is itself MARKED in the DB" as a statement about the parallel log
-   (the serial proof, CommandsP.IgnRun, is an invariant of the serial loop; it was not redone for the
-   job-queue loop).  Since every report of such a task is skip_ignore and a started task is reported
-   success / failure when its result is processed, only a run cut short could differ; checked on the
-   real thread runner by harness/c13.py (runs with -n 2 -P thread, with and without -a). *)
-Theorem C13_ignore_wins_over_always_parallel_partial :
+(* ... and the PARALLEL runners (MRunner / MThreadRunner model of Model/Parallel.v): under any worker count,
+   any schedule, both flavours (processes / threads), any selection, --continue or not, --always-execute
+   or not, any set-iteration oracle, any fuel (runs cut short by an error, an interrupt, a hang or the
+   fuel included) -- a task the mark reaches is never STARTED in any worker (no PStart event: neither a
+   task marked in the DB itself nor one that reaches a marked task through task_dep / calc_dep), every
+   final report it gets is skip_ignore, and no task with a task_dep / calc_dep / setup on such a task is
+   started in a worker either.
+   (Proofs/IgnParP.v: invariant NS of the job-queue loop next to PI / PO -- a task is only put on the job
+   queue with status `run`, which select_task sets after the test of ignored_deps / status_is_ignore and
+   before it looks at always_execute; a worker only starts what it takes from that queue.  Formerly
+   C13_ignore_wins_over_always_parallel_partial, which lacked the first conjunct.) *)
+Theorem C13_ignore_wins_over_always_parallel :
   forall (md5 : N -> N) v wake_rank calc_rank c fs d rt cont always proc fuel nprocs sched sel k,
   ignored_by d rt k ->
   let log := fst (Parallel.run_parallel (run_table md5 v c fs d rt) wake_rank calc_rank cont always proc fuel nprocs sched sel) in
+  (forall w, ~ In (Parallel.PStart k w) log) /\
   (forall e, In (Parallel.PE e) log -> RunnerP.is_final_ev k e = true -> e = Runner.ESkipIgnore k) /\
   (forall t ct w, lookup rt t = Some ct -> In k (c_task_dep ct ++ c_calc_dep ct ++ c_setup ct) -> ~ In (Parallel.PStart t w) log).
-Proof. exact next_run_parallel_ignore_wins. Qed.
-Print Assumptions C13_ignore_wins_over_always_parallel_partial.
+Proof. exact IgnParP.next_run_parallel_ignore_wins_full. Qed.
+Print Assumptions C13_ignore_wins_over_always_parallel.
+
+(* the same right after the command, in a parallel run: every task `ignore` wrote a line for, and everything
+   that depends on one, is never started in a worker and is only ever reported skip_ignore *)
+Theorem C13_ignore_then_wins_over_always_parallel :
+  forall (md5 : N -> N) v wake_rank calc_rank c fs tb args d rt cont always proc fuel nprocs sched sel x ct,
+  let out := ignore_cmd tb args d in
+  co_res out = COk -> In x (map fst (co_log out)) -> lookup rt x = Some ct ->
+  forall k, clos_refl_trans name (fun a b => exists ca, lookup rt a = Some ca /\ In b (c_task_dep ca ++ c_calc_dep ca)) k x ->
+  let log := fst (Parallel.run_parallel (run_table md5 v c fs (co_db out) rt) wake_rank calc_rank cont always proc fuel nprocs sched sel) in
+  (forall w, ~ In (Parallel.PStart k w) log) /\
+  (forall e, In (Parallel.PE e) log -> RunnerP.is_final_ev k e = true -> e = Runner.ESkipIgnore k).
+Proof.
+  intros md5 v wake_rank calc_rank c fs tb args d rt cont always proc fuel nprocs sched sel x ct out Hok Hx Hl k Hk.
+  assert (Hm : ignored_by (co_db out) rt x).
+  { apply (ib_mark _ _ x ct Hl). pose proof (ignore_exact tb args d) as H. cbv zeta in H. fold out in H. rewrite Hok in H.
+    destruct H as (_ & B & _). unfold status_is_ignore, getrec. rewrite (B x Hx). reflexivity. }
+  assert (Hi : ignored_by (co_db out) rt k).
+  { clear Hx Hl. apply clos_rt_rt1n in Hk. induction Hk as [|a b z (ca & Ha & Hb) _ IH]; [exact Hm|].
+    exact (ib_dep _ _ a ca b Ha Hb (IH Hm)). }
+  destruct (IgnParP.next_run_parallel_ignore_wins_full md5 v wake_rank calc_rank c fs (co_db out) rt cont always proc fuel nprocs sched sel k Hi) as (A & B & _).
+  exact (conj A B).
+Qed.
+Print Assumptions C13_ignore_then_wins_over_always_parallel.
 
 (* ---- reset-dep ---- *)
 
@@ -488,6 +515,28 @@ Example C13_always_nonvacuous :
   map (outcome_z (run true [0; 1; 4; 5]%N)) [0;1;2;3;4;5]%N = [4; 17; 17; 4; 17; 17] /\
   map (outcome_z (run false [0; 1; 4; 5]%N)) [0;1;2;3;4;5]%N = [4; 17; 17; 4; 2; 17] /\
   map (outcome_z (run true [0%N])) [0;1;2;3;4;5]%N = [4; 0; 0; 4; 0; 0].
+Proof.
+  split; [|vm_compute; repeat split].
+  apply (ib_dep _ _ 0%N (mk [3%N] [] None [0%N] [] []) 3%N); [reflexivity|left; reflexivity|].
+  apply (ib_mark _ _ 3%N (mk [] [] None [0%N] [] [])); reflexivity.
+Qed.
+
+(* the same DB (`ignore b`), PARALLEL runs with 2 workers of every task, threads and processes, with and
+   without -a: the tasks started in a worker ([pstarts], in start order) never include b (3) nor a (0),
+   both are reported ignored (4); with -a the up-to-date c (4) is started too *)
+Example C13_always_parallel_nonvacuous :
+  let d := co_db (ignore_cmd tb0 [3%N] (remove_list db0 [])) in
+  let fs := fs_of [(0%N, {| mtime := 1; size := 4; content := 0%N |}); (1%N, {| mtime := 1; size := 4; content := 0%N |})] in
+  let d1 := upd d 4%N (Some {| r_deps := Some []; r_checker := Some MD5; r_saved := saved_of []; r_values := [(0%N, Some 1%N)];
+                               r_result := None; r_ignore := false |}) in
+  let run always proc sched :=
+    fst (Parallel.run_parallel (run_table (fun x => x) current MD5 fs d1 tb0) (fun _ _ => 0%N) (fun _ => 0%N)
+           true always proc 400 2 sched [0; 1; 4; 5]%N) in
+  let obs log := (ParallelP.pstarts log, map (outcome_z (ParallelP.proj log)) [0;1;2;3;4;5]%N) in
+  ignored_by d1 tb0 0%N /\
+  obs (run true false [1;0;2;1;0;3]%nat) = ([5; 4; 2; 1]%N, [4; 17; 17; 4; 17; 17]) /\
+  obs (run true true [1;0;2;1;0;3]%nat) = ([5; 4; 2; 1]%N, [4; 17; 17; 4; 17; 17]) /\
+  obs (run false true []) = ([2; 5; 1]%N, [4; 17; 17; 4; 2; 17]).
 Proof.
   split; [|vm_compute; repeat split].
   apply (ib_dep _ _ 0%N (mk [3%N] [] None [0%N] [] []) 3%N); [reflexivity|left; reflexivity|].
